@@ -3,11 +3,12 @@ import os, re
 from vlib.coqlit import *
 
 ID = "C14"
-COQ_PROPS = "Props/C14.v"
+COQ_PROPS = ["Props/C14.v", "Props/C14conv.v"]
 THEOREMS = ["C14_filter_sem", "C14_filter_sem_noincl", "C14_compose", "C14_default", "C14_default_lists_plain",
-            "C14_position_orientation_kept", "C14_named_categories_excluded"]
+            "C14_position_orientation_kept", "C14_named_categories_excluded",
+            "C14_filter_meta_exact", "C14_keys", "C14_default_privacy"]
 ALLOWED_AXIOMS = []
-TABLES = ["t_filter"]
+TABLES = ["t_filter", "t_classes", "t_ext_tol", "t_stack"]
 TRUSTED_BASE = ["Section variable `matches` standing for Python re.search; the model assumes that '|'.join('(?:r)') matches iff a part matches "
                 "(validated by the correspondence on generated regex lists: per-pattern bits come from Python's re, the verdict from the real filter)"]
 ASSUMPTIONS = ["patterns are valid Python regular expressions without global inline flags or back-references across parts",
@@ -150,4 +151,8 @@ class Filt:
                     yield c
 
 
-PARTS = [Filt]
+from props import convmeta
+PARTS = [Filt, convmeta.KeySetPart]
+TRUSTED_BASE = TRUSTED_BASE + ['conversion level: hand models coq/Stack/Model.v, coq/Ext/Model.v, coq/Conv/Meta.v tied to DicomStack.to_nifti(embed_meta=True) by the keyset correspondence part']
+ASSUMPTIONS = ASSUMPTIONS + ['conversion level: slice normals of the per-file extensions pairwise np.allclose (open finding N9 of C01), key-only filters, extracted dictionaries are inputs',
+                             'keys that are None in every file may be present or absent; the key-set equation is stated modulo them']
